@@ -26,13 +26,14 @@ package obfs
 //   keys   keys of 0..3 bytes are refused (short-key-accepted).
 
 import (
-	"runtime/debug"
 	"bytes"
 	"encoding/hex"
+	"errors"
 	"fmt"
 	"net"
 	"os"
 	"os/exec"
+	"runtime/debug"
 	"sort"
 	"strings"
 	"testing"
@@ -129,6 +130,7 @@ func c13Gen(r *hysim.Rand, tier string) *hysim.Script {
 	}
 	sc.Cfg["kseed"] = int64(r.Uint64() >> 1)
 	sc.Cfg["badklen"] = int64(r.Range(0, 3))
+	sc.Cfg["rd_poll_us"] = r.Pick64(0, 0, 0, 300, 5000, 200000)
 	for s := 0; s < 2; s++ {
 		nw, nr := r.Range(1, 3), r.Range(1, 3)
 		sc.Cfg[fmt.Sprintf("nw%d", s)] = int64(nw)
@@ -207,16 +209,16 @@ func c13Gen(r *hysim.Rand, tier string) *hysim.Script {
 type c13Sample struct{ wire, plain []byte }
 
 type c13Side struct {
-	idx   int
-	ep    *simnet.Endpoint
-	pc    net.PacketConn
-	addr  net.Addr
-	peer  *c13Side
-	rbuf  []int
+	idx    int
+	ep     *simnet.Endpoint
+	pc     net.PacketConn
+	addr   net.Addr
+	peer   *c13Side
+	rbuf   []int
 	minBuf int
-	wq    []chan hysim.Op
-	wdone []chan struct{}
-	rdone []chan struct{}
+	wq     []chan hysim.Op
+	wdone  []chan struct{}
+	rdone  []chan struct{}
 
 	pendingW   map[string]int // payloads handed to WriteTo, not yet seen on the wire
 	delivered  map[string]int // from|plaintext -> deliveries not yet surfaced
@@ -228,15 +230,16 @@ type c13Side struct {
 }
 
 type c13World struct {
-	x       *hysim.Run
-	f       *simnet.Fabric
-	key     []byte
-	sides   [2]*c13Side
-	otherKey []byte // junk obfuscated (by the reference) under this key
-	closing bool
-	py      bool
-	samples []c13Sample
-	writes  int
+	pollEvery time.Duration // readers poll with this read deadline (0: blocking reads)
+	x         *hysim.Run
+	f         *simnet.Fabric
+	key       []byte
+	sides     [2]*c13Side
+	otherKey  []byte // junk obfuscated (by the reference) under this key
+	closing   bool
+	py        bool
+	samples   []c13Sample
+	writes    int
 }
 
 var c13Last *c13World // handed from Exec to Post (one run at a time)
@@ -345,8 +348,16 @@ func (w *c13World) reader(s *c13Side, i int) {
 		for j := range buf {
 			buf[j] = 0xA5
 		}
+		if w.pollEvery > 0 {
+			// an application that polls: every read under a deadline, retried when it expires
+			_ = s.pc.SetReadDeadline(time.Now().Add(w.pollEvery))
+		}
 		n, addr, err := s.pc.ReadFrom(buf)
 		if err != nil {
+			if w.pollEvery > 0 && !w.closing && errors.Is(err, os.ErrDeadlineExceeded) {
+				x.Probe("read-deadline-expired-then-retried")
+				continue
+			}
 			if !w.closing {
 				x.Violate("read-error", "side %d r%d: ReadFrom failed while the socket is open: %v", s.idx, i, err)
 			}
@@ -476,6 +487,9 @@ func c13Exec(x *hysim.Run) {
 		klen = 1024
 	}
 	w.key = c13Bytes(sc.Get("kseed", 1), klen)
+	if d := sc.Get("rd_poll_us", 0); d > 0 && d <= 10000000 {
+		w.pollEvery = time.Duration(d) * time.Microsecond
+	}
 	us := func(k string) time.Duration { return time.Duration(sc.Get(k, 0)) * time.Microsecond }
 	cfg := simnet.LinkCfg{
 		Loss: uint64(sc.Get("loss", 0)), Dup: uint64(sc.Get("dup", 0)), Reorder: uint64(sc.Get("reorder", 0)),
